@@ -22,7 +22,7 @@ def build_thr(ctx):
     txt = open(info['c']).read()
     cut = txt.index('/* ---- model ')
     gen = re.sub(r'uint8_t\s*\*', 'PAY ', txt[:cut])
-    gen = gen.replace('uint8_t st_usw_push(void*, void*);', 'uint8_t st_usw_push(void*, PAY);').replace('uint8_t st_usw_pop(void*, void*);', 'uint8_t st_usw_pop(void*, PAY*);')
+    gen = gen.replace('void st_atomic_long_set(void*, uint64_t);', 'void st_atomic_long_set(void*, uint64_t);').replace('uint8_t st_usw_push(void*, void*);', 'uint8_t st_usw_push(void*, PAY);').replace('uint8_t st_usw_pop(void*, void*);', 'uint8_t st_usw_pop(void*, PAY*);')
     gen = re.sub(r'st_usw_push\(\(void\*\)(\w+), \(void\*\)(\w+)\)', r'st_usw_push((void*)\1, \2)', gen)
     gen = re.sub(r'st_usw_pop\(\(void\*\)(\w+), \(void\*\)(\w+)\)', r'st_usw_pop((void*)\1, \2)', gen)
     models = txt[cut:]
@@ -37,12 +37,12 @@ def build_thr(ctx):
 
 SPIN = ('_ZN2ff15uMPMC_Ptr_Queue4pushEPv', '_ZN2ff15uMPMC_Ptr_Queue3popEPPv')
 def thr(ctx, name, what, defs, tier, bounds, timeout=600):
-    ctx.add(Harness(name, VERIF + '/harness/C30_thr.c', defines=['VF_THREADS', 'WHAT=%d' % what] + defs, unwind=2,
+    ctx.add(Harness(name, VERIF + '/harness/C30_thr.c', defines=['VF_THREADS', 'WHAT=%d' % what] + defs, unwind=2, nochecks=True,
                     unwindset=['main.0:9', 'main.1:9', 'main.2:10', 'main.3:10', 'producer.0:6', 'producer.1:4', 'consumer.0:6', '_ZN2ff15SWSR_Ptr_Buffer5resetEb.0:6', 'vf_tq_setup.0:4'],
                     timeout=timeout, mem_gb=16, functions=FUN_T, stubs=STUBS_T, tier=tier, bounds=bounds,
                     desc='exactly-once, per-producer order, empty/full only when justified, under every interleaving (SC)'))
 FUN_T = ['ff::SWSR_Ptr_Buffer::push/pop/inc/empty/available/reset', 'ff::uMPMC_Ptr_Queue::push/pop', 'abstraction_cas (cmpxchg as an atomic section)', 'ff::atomic_long_read/atomic_long_set']
-STUBS_T = ['data pointers translated as 64-bit integers (PAY)', 'uSWSR_Ptr_Buffer::push/pop below uMPMC_Ptr_Queue := atomic ring per sub-queue', 'queue set-up by shim code mirroring init without allocation',
+STUBS_T = ['atomic_long_set := the same store inside an atomic section (CBMC encodes an element store into an array of structs as a whole-array read-modify-write)', 'CBMC standard pointer checks off in the threaded harnesses (dead-object bookkeeping is a pointer-typed shared write); memory safety of the same functions is checked by C30_seq', 'data pointers translated as 64-bit integers (PAY)', 'uSWSR_Ptr_Buffer::push/pop below uMPMC_Ptr_Queue := atomic ring per sub-queue', 'queue set-up by shim code mirroring init without allocation',
            'spin iterations beyond the unwinding bound are cut (stuttering steps); their unwinding assertions are not counted']
 
 def seq(ctx, name, layer, k, nq, sz, tier, timeout=600):
@@ -86,7 +86,10 @@ def run(ctx):
 
 def replay(ctx, cx, h=None):
     c = cx.get('cx', cx)
-    exe = ctx.native('c30replay', ['replay/c30_replay.cpp'], flags=('-O1', '-g', '-fsanitize=address,undefined'), libs=['-L' + REPO + '/runtime/.libs', '-lfix8', '-Wl,-rpath,' + REPO + '/runtime/.libs'])
+    exe = ctx.native('c30replay', ['replay/c30_replay.cpp'], flags=('-O1', '-g'), libs=['-L' + REPO + '/runtime/.libs', '-lfix8', '-Wl,-rpath,' + REPO + '/runtime/.libs'])
+    if h is not None and 'C30_thr' in h.name:
+        r = sh([exe, 'thr-mpmc' if 'mpmc' in h.name else 'thr-swsr'], env=dict(os.environ, ASAN_OPTIONS='detect_leaks=0'), cwd=ctx.work)
+        return r.returncode != 0, r.stdout.strip()[-400:].replace('\n', ' | ')
     layer = 0; nq = 2; sz = 2
     if h is not None:
         for d in h.defines:
@@ -94,5 +97,5 @@ def replay(ctx, cx, h=None):
             if d.startswith('NQ='): nq = int(d[3:])
             if d.startswith('SZ='): sz = int(d[3:])
     ops = [str(int(o)) for o in c.get('cx_op', [])]
-    r = sh([exe, str(layer), str(nq), str(sz)] + ops, env=dict(os.environ, ASAN_OPTIONS='detect_leaks=0'))
+    r = sh([exe, str(layer), str(nq), str(sz)] + ops, env=dict(os.environ, ASAN_OPTIONS='detect_leaks=0'), cwd=ctx.work)
     return r.returncode != 0, r.stdout.strip()[-500:].replace('\n', ' | ')
